@@ -50,30 +50,50 @@ PROP = dict(
         "are exact), so the F02 way into the class (fuzzy engine, partial syllable, engine switch) is exercised by the C-API "
         "campaign on the real Trie dictionaries only; the F03 way (unlearn the only word) is exercised by both",
         "chewing_new (default search paths, would touch $HOME) and chewing_set_logger with a callback (variadic) are not called",
+        "EnvOK (explicit hypotheses of every theorem): well-formed dictionary values (one character per syllable, closed under "
+        "add / update / flush / remove), an exact match is also a prefix match, the engines behave as C03 proves for the engine "
+        "model, the frequency estimator returns; OpValid: candidates_per_page > 0 (the C layer validates 1..10)",
+        "Covered: the theorems do not yet cover jump_to_*_selection_point under an open list, nor select(n) / table-reading keys "
+        "while a symbol table (SymbolSelector) is open; correspondence and campaigns only there",
     ],
 )
 
-# TODO(owner): DRAFT text — finalise the theorem names / wording once Props/C01.lean is settled.
 MANIFEST = dict(
-    text="Lean 4 theorems (Chewing/Props/C01.lean; C01_partial, see Props/C01.lean) over the executable editor state-machine "
-         "model (Model/Editor.lean: every arm of process_keyevent and the other public entry points, with every unwrap / "
-         "expect / index / slice / assert / checked-arithmetic site as an explicit `Outcome.panic` and every loop fuel-bounded): "
-         "from every state satisfying the model invariant in which every buffered syllable has a word under the strategy in "
-         "force, no operation panics and no loop runs out of fuel (C01_partial); the excluded class is refuted by concrete "
-         "witnesses (C01_refuted: F02 engine switch over a partial syllable, F03 removal of the only word of a buffered "
-         "syllable). Tie: per-operation correspondence of the model with the real Editor from its own pre-state (panic "
-         "outcomes included), plus the property evaluated directly on the implementation: (a) editor harness oracle — any "
-         "panic or hang of an operation or of a read-only accessor, (b) a C-API crash/hang campaign in forked workers with a "
-         "per-call watchdog over keys (all 256 codes), options, 17 keyboard types, 3 engines, candidate and user-phrase "
-         "calls with hostile arguments, all getters after every call. Failures are classified by a state predicate only: "
-         "known class no-word-for-buffered-syllable, anything else is a new violation with its call history as replay. "
-         "Defects found and repaired by fix: commits: F01 (full-width unwrap), F04 (candidate offset overflow), F06 "
-         "(userphrase_get short buffer), F40 (select auto-commits under an open list).",
-    note="Trusted: Lean kernel (standard axioms), read-only snapshot hooks, harness + compiled model driver, the process-level "
-         "watchdog. Not modelled: allocation failure, stack exhaustion, wall-clock time; the C glue (capi/src/io.rs) is covered "
-         "by the campaign, not by theorems. chewing_new and logger callbacks are not exercised.",
-    technique="Lean 4 proof (invariant + case analysis over the modelled state machine with explicit panic sites and fuel) ; "
-              "per-step model/implementation correspondence; C-API crash/hang campaign in watchdog-guarded worker processes "
-              "with state-based classification",
+    text="Lean 4 theorems (Chewing/Props/C01.lean, proofs in Proofs/C01*.lean) over the executable editor state-machine model "
+         "(Model/Editor.lean: every arm of process_keyevent and the other public entry points, every unwrap / expect / index / "
+         "slice / assert / checked-arithmetic site an explicit `Outcome.panic`, every loop fuel-bounded), for EVERY environment "
+         "(dictionary, layout, engines, estimator) satisfying the explicit hypotheses EnvOK (phrases have one character per "
+         "syllable; adding / updating / flushing removes no word; the engines return a tiling with one character per symbol on a "
+         "valid composition whose syllables all have a word = C03's theorems; the estimator does not overflow). EditorInv is the "
+         "reachable-state invariant: C04 composition invariant + one character per selected symbol + selections over syllables, "
+         "cursor <= len, every buffered syllable has a word under every active lookup strategy (engine's, editor's, open "
+         "selector's), prefix lookup only with the prefix engine, page size > 0, open phrase selector = non-empty run of syllables "
+         "inside the buffer over the editor's own composition, replacing symbol list sits on a non-syllable. C01_partial (one "
+         "operation) / C01_partial_run (every history, induction): from EditorInv, an operation outside the known class returns "
+         "a value - no panic (no_panic), no exhausted fuel (no_hang: PhraseSelector::init / next, break-point searches, "
+         "auto-learn, auto-commit loops terminate within a bound linear in the buffer length) - and EditorInv holds again; "
+         "initial_inv: a fresh editor satisfies it; compValid_of_cinv: EditorInv implies the precondition of C03's engine "
+         "theorems. Known (state-based, F02 / F03): unlearn_phrase / set_editor_options / set_conversion_engine after which "
+         "some buffered syllable has no word under an active strategy; C01_full (no exclusion) is refuted by the F02 and F03 "
+         "histories (C01_full_refuted, f03_history_panics, f02_is_known). PARTIAL: not yet covered by a theorem (predicate "
+         "Covered; C01_target is the statement without it): jump_to_*_selection_point under an open list, and - only while a "
+         "symbol TABLE (SymbolSelector) is open - select(n) and the table-reading keys (Down, Space, j, k, page keys, digits); "
+         "the C glue capi/src/io.rs. Those rest on the tie: per-operation correspondence of model and real Editor from its own "
+         "pre-state (panic outcomes included, 0 differences), the editor-harness oracle (any panic / hang of an operation or "
+         "accessor) and a C-API crash/hang campaign in forked workers with a per-call watchdog (all 256 key codes, options, 17 "
+         "keyboard types, 3 engines mid-composition, candidate and user-phrase calls with hostile arguments, every getter after "
+         "every call); failures are classified by the state predicate only (known class no-word-for-buffered-syllable, else "
+         "new with the call history as replay). Defects repaired by fix: commits: F01 full-width unwrap, F04 candidate offset "
+         "overflow, F06 userphrase_get short buffer, F40 (new, found by the campaign) Editor::select auto-commits under an open list.",
+    note="Trusted: Lean kernel (axioms propext, Classical.choice, Quot.sound), read-only snapshot hooks, harness + compiled model "
+         "driver, the process-level watchdog. EnvOK.convert_ok is C03's nonempty_result + alt_chain + one_char_per_symbol + "
+         "fuel_suffices (proved there for the engine model, under ScoreBound = at most 128 symbols and frequencies <= 2^23; the "
+         "link buffer length <= 128 is C05's bound and is not re-proved here); the dictionary hypotheses of EnvOK are C09's "
+         "domain and are assumptions here. Not modelled: allocation failure, stack exhaustion, wall-clock time. chewing_new and "
+         "logger callbacks are not exercised.",
+    technique="Lean 4 proof (reachable-state invariant, induction over histories, case analysis over every arm of the modelled "
+              "state machine with explicit panic sites, fuel-sufficiency / termination of the selector loops); per-step "
+              "model/implementation correspondence; C-API crash/hang campaign in watchdog-guarded worker processes with "
+              "state-based classification",
     category="proof",
 )
